@@ -1061,11 +1061,13 @@ where
     /// * `Err(BTreeError)` if failed
     pub fn insert(&self, doc_id: PK, field_value: FV, now_ms: u64) -> Result<bool, BTreeError> {
         // Shared with other mutations, exclusive against `compact_buckets`.
+        anda_db_utils::verif_await_read!(self.mutation_gate);
         let _mutation_guard = self.mutation_gate.read();
 
         // Validate `doc_id` serialization up-front, before any state is
         // mutated, so a failing `Serialize` impl surfaces as an error instead
         // of a panic (and never leaves a half-applied insert behind).
+        anda_db_utils::verif_point!("btree.insert.start");
         let doc_id_size =
             try_cbor_serialized_size(&doc_id).map_err(|err| BTreeError::Serialization {
                 name: self.name.clone(),
@@ -1134,6 +1136,7 @@ where
             }
         };
 
+        anda_db_utils::verif_point!("btree.insert.posting-done");
         if is_new {
             // Add the field value to the B-tree for range queries.
             //
@@ -1149,6 +1152,7 @@ where
             }
         }
 
+        anda_db_utils::verif_point!("btree.insert.btree-done");
         // If the index was modified, update bucket state
         let mut new_bucket = 0;
         if size_increase > 0 {
@@ -1220,6 +1224,7 @@ where
             }
         }
 
+        anda_db_utils::verif_point!("btree.insert.bucket-done");
         if new_bucket > 0 {
             // Create a new bucket and migrate this data to it
             match self.buckets.entry(new_bucket) {
@@ -1260,6 +1265,7 @@ where
     /// * `bool` - `true` if the document_id-field_value pair was successfully removed, `false` otherwise
     pub fn remove(&self, doc_id: PK, field_value: FV, now_ms: u64) -> bool {
         // Shared with other mutations, exclusive against `compact_buckets`.
+        anda_db_utils::verif_await_read!(self.mutation_gate);
         let _mutation_guard = self.mutation_gate.read();
 
         let mut removed = false;
@@ -1291,6 +1297,7 @@ where
             }
         }
 
+        anda_db_utils::verif_point!("btree.remove.posting-done");
         if removed {
             let mut entry_removed = false;
             if posting_empty {
@@ -1307,6 +1314,7 @@ where
                 }
             }
 
+            anda_db_utils::verif_point!("btree.remove.entry-done");
             let size_decrease = if entry_removed {
                 full_size_decrease
             } else {
@@ -1390,6 +1398,7 @@ where
         }
 
         // Shared with other mutations, exclusive against `compact_buckets`.
+        anda_db_utils::verif_await_read!(self.mutation_gate);
         let _mutation_guard = self.mutation_gate.read();
 
         // Validate `doc_id` serialization up-front, before any state is
@@ -1515,6 +1524,7 @@ where
             }
         }
 
+        anda_db_utils::verif_point!("btree.insert_array.phase1-done");
         // Phase 2: handle bucket overflow and updates
         // Process each field value individually to avoid migrating existing values unnecessarily.
         // field_values_to_migrate: (old_bucket_id, field_value, size)
@@ -1565,6 +1575,7 @@ where
             }
         }
 
+        anda_db_utils::verif_point!("btree.insert_array.phase2-done");
         // Phase 3: Create new buckets if needed
         if !field_values_to_migrate.is_empty() {
             let mut next_bucket_id = self.max_bucket_id.fetch_add(1, Ordering::Relaxed) + 1;
@@ -1669,6 +1680,7 @@ where
         }
 
         // Shared with other mutations, exclusive against `compact_buckets`.
+        anda_db_utils::verif_await_read!(self.mutation_gate);
         let _mutation_guard = self.mutation_gate.read();
 
         // Track removal statistics
@@ -1825,6 +1837,7 @@ where
             0
         };
 
+        anda_db_utils::verif_point!("btree.batch_update.inserted");
         let removed = if !to_remove.is_empty() {
             self.remove_array(doc_id, to_remove, now_ms)
         } else {
@@ -2470,6 +2483,7 @@ where
         // Exclusive: no mutation may observe — or add to — the half-rebuilt
         // bucket map. Every mutator takes the shared side of this gate before
         // touching any other lock, so the ordering is uniform and deadlock-free.
+        anda_db_utils::verif_await_write!(self.mutation_gate);
         let _mutation_guard = self.mutation_gate.write();
 
         let old_count = self.buckets.len();
@@ -2497,6 +2511,7 @@ where
             return (old_count, 1);
         }
 
+        anda_db_utils::verif_point!("btree.compact.snapshot-done");
         // Step 2: Sort by size descending for better packing.
         fv_sizes.sort_unstable_by_key(|b| std::cmp::Reverse(b.1));
 
@@ -2514,11 +2529,13 @@ where
             }
         }
 
+        anda_db_utils::verif_point!("btree.compact.packed");
         // Step 4: Rebuild buckets.
         self.buckets.clear();
         let new_count = bins.len();
         let max_id = new_count.saturating_sub(1) as u32;
 
+        anda_db_utils::verif_point!("btree.compact.cleared");
         for (i, (size, field_values)) in bins.into_iter().enumerate() {
             let bucket_id = i as u32;
 
@@ -2533,6 +2550,7 @@ where
                 .insert(bucket_id, (size, true, field_values.into(), 1));
         }
 
+        anda_db_utils::verif_point!("btree.compact.rebuilt");
         self.max_bucket_id.store(max_id, Ordering::Relaxed);
         self.update_metadata(|m| {
             m.stats.version += 1;
